@@ -17,13 +17,31 @@ def ev(e):
     return getattr(e, "value", e)
 
 
+class WordHook:
+    """Move hook that rewrites F and adds E; `fresh` returns a new mapping instead of mutating its argument."""
+
+    def __init__(self, fresh):
+        self.fresh = fresh
+
+    def __call__(self, origin, target, params, state):
+        out = type(params)(params) if self.fresh else params
+        if out.get("F") is not None:
+            out["F"] = out.get("F") / 2
+        out["E"] = 0.25 if self.fresh else 0.75
+        return out
+
+
 class C07System(BuilderSystem):
-    def __init__(self, grid, bounded=False):
+    def __init__(self, grid, bounded=False, hooks=False):
         self.grid = grid
         self.cfg = {}
         self.bounded = bounded
+        self.hooks = hooks
 
     def setup(self, st):
+        if self.hooks:
+            st.g.add_hook(WordHook(False))
+            st.g.add_hook(WordHook(True))
         if self.bounded:
             # rejected calls become part of the history: the state must keep mirroring the *emitted* program
             st.g.set_bounds("feed-rate", 0, 2000)
@@ -157,7 +175,8 @@ ASSUMPTIONS = ["not demanded: halt_mode, tool power after M05, the other API's s
 def systems(tier):
     grid = (0, 1, 50, 1200.5)
     return [("full-api", C07System(grid), 3 if tier == "quick" else 4, None),
-            ("bounded-with-rejections", C07System(grid, bounded=True), 3 if tier == "quick" else 4, None)]
+            ("bounded-with-rejections", C07System(grid, bounded=True), 3 if tier == "quick" else 4, None),
+            ("with-move-hooks", C07System(grid, hooks=True), 2 if tier == "quick" else 3, None)]
 
 
 def run(tier, seed):
